@@ -218,6 +218,41 @@ func registerHooks(p *Program) {
 		}
 		panic("FormatBool")
 	}
+	h["internal/stringslite.Clone"] = func(fr *frame, args []value) value { return args[0] }
+	h["strings.Clone"] = func(fr *frame, args []value) value { return args[0] }
+	h["strconv.ParseFloat"] = func(fr *frame, args []value) value {
+		s, ok := args[0].(string)
+		if !ok {
+			panic(abort{AbortUnsupported, "strconv.ParseFloat of a symbolic string"})
+		}
+		f, err := strconv.ParseFloat(s, int(asInt64(args[1])))
+		if err != nil {
+			return tuple{f, makeFmtError(fr.i, err.Error(), nil)}
+		}
+		return tuple{f, iface{}}
+	}
+	h["strconv.ParseInt"] = func(fr *frame, args []value) value {
+		s, ok := args[0].(string)
+		if !ok {
+			panic(abort{AbortUnsupported, "strconv.ParseInt of a symbolic string"})
+		}
+		n, err := strconv.ParseInt(s, int(asInt64(args[1])), int(asInt64(args[2])))
+		if err != nil {
+			return tuple{n, makeFmtError(fr.i, err.Error(), nil)}
+		}
+		return tuple{n, iface{}}
+	}
+	h["strconv.ParseBool"] = func(fr *frame, args []value) value {
+		s, ok := args[0].(string)
+		if !ok {
+			panic(abort{AbortUnsupported, "strconv.ParseBool of a symbolic string"})
+		}
+		b, err := strconv.ParseBool(s)
+		if err != nil {
+			return tuple{b, makeFmtError(fr.i, err.Error(), nil)}
+		}
+		return tuple{b, iface{}}
+	}
 	h["strconv.Quote"] = func(fr *frame, args []value) value {
 		if s, ok := args[0].(string); ok {
 			return strconv.Quote(s)
